@@ -192,6 +192,67 @@ def check_pointer_batch(res: Res, cx: Ctx, base: int, ps: list[int]) -> None:
         res.violate("long-pointer-retained", f"long_low_rom_pointer({base:#x}): joined table {table.hex()} expected {b''.join(exp).hex()}", wit)
 
 
+def check_converters_alive(res: Res, bases: list[int], ps: list[int], order_seed: int) -> None:
+    """A script prepares the formulas of all its pointer tables up front and uses them afterwards in any order: every converter keeps its own base."""
+    from script import formulas
+
+    wit = {"kind": "converters_alive", "bases": bases, "ps": ps, "order_seed": order_seed}
+    res.case(("alive", tuple(bases), tuple(ps), order_seed))
+    res.count("converters_alive_at_once", 2 * len(bases))
+    try:
+        longs = [formulas.long_low_rom_pointer(b) for b in bases]
+        rels = [formulas.base_relative_16bits_pointer_formula(b) for b in bases]
+        calls = [(i, p) for i in range(len(bases)) for p in ps]
+        random.Random(order_seed).shuffle(calls)
+        for i, p in calls:
+            if not 0 <= bases[i] + p < SPACE:
+                continue
+            a = textbook(bases[i] + p, "low")
+            exp = bytes([a & 0xFF, (a >> 8) & 0xFF, (a >> 16) & 0xFF])
+            got = longs[i](p)
+            if bytes(got) != exp:
+                res.violate("long-pointer-shared-base", f"converter {i} of {len(bases)} made by long_low_rom_pointer({bases[i]:#x}), called with {p:#x} after the others were made: {bytes(got).hex()}, expected {exp.hex()}", wit)
+                return
+            v = p & 0xFFFF
+            got_r = rels[i](bytes([v & 0xFF, v >> 8]))
+            if got_r != v + bases[i]:
+                res.violate("relative-pointer-shared-base", f"converter {i} of {len(bases)} made by base_relative_16bits_pointer_formula({bases[i]:#x}) decoded {v:#06x} to {got_r:#x}, expected {v + bases[i]:#x}", wit)
+                return
+    except Exception as e:  # noqa: BLE001
+        res.violate("pointer-raises", f"converters for bases {[hex(b) for b in bases]} raised {e!r}", wit)
+
+
+def check_program_reuse(res: Res, cx: Ctx, modes: list[str], offsets: list[int]) -> None:
+    """One Program object assembles several patches, each under the mapping named in the call: a byte placed at rom_to_snes(o, mode) lands at file offset o."""
+    from pathlib import Path
+
+    from a816.program import Program
+    from vf.frontends import image_of_ips
+    from vf.harness import Scratch
+
+    wit = {"kind": "program_reuse", "modes": modes, "offsets": offsets}
+    res.case(("reuse", tuple(modes), tuple(offsets)))
+    prog = Program()
+    with Scratch({}):
+        for step, (mode, o) in enumerate(zip(modes, offsets)):
+            res.count("assemblies_on_a_reused_program")
+            a = textbook(o, mode)
+            with open("t.s", "w", encoding="utf-8") as f:
+                f.write(f"*={a:#08x}\n.db 0x5A, {step + 1}\n")
+            try:
+                rc = prog.assemble_as_patch("t.s", Path("out.ips"), mapping=mode)
+                raw = open("out.ips", "rb").read()
+            except Exception as e:  # noqa: BLE001
+                res.violate("assembler-disagrees-on-reused-program", f"assembly {step + 1} ({mode}) on a Program that assembled {modes[:step]} before: `*={a:#x}` raised {e!r}", wit)
+                return
+            img, why = image_of_ips(raw)
+            got = img.read(o, 2) if img is not None else None
+            if rc != 0 or got != bytes([0x5A, step + 1]):
+                res.violate("assembler-disagrees-on-reused-program", f"assembly {step + 1} ({mode}) on a Program that assembled {modes[:step]} before: `*={a:#x}` (= rom_to_snes({o:#x}, {mode})) "
+                            f"did not put its bytes at file offset {o:#x} (status {rc}, {why or 'other offsets written'})", wit)
+                return
+
+
 def check_table(res: Res, base: int, width: int, entries: list[bytes], lead: int) -> None:
     """The consumer of the decoding formula: Script.read_pointers over a pointer table with `width`-byte entries
     (16-bit pointer followed by flag / bank bytes when width > 2)."""
@@ -350,6 +411,12 @@ def run_shard(shard: dict) -> Res:
                 entries = [bytes([rng.choice([0, 1, 0x7F, 0x80, 0xFF, rng.randrange(256)]) for _ in range(2)]) + bytes(rng.choice([0, 0, 1, 0x7E, 0x80, 0xFF, rng.randrange(256)]) for _ in range(width - 2))
                            for _ in range(rng.randint(1, 8))]
                 check_table(res, rng.randrange(0, SPACE), width, entries, rng.choice([0, 0, 3, 0x200]))
+            if i % 16 == 0:
+                check_converters_alive(res, [rng.choice(edges) + 0x8000 * rng.randrange(0, 0x60) for _ in range(rng.randint(2, 5))],
+                                       [rng.choice(edges) if rng.random() < 0.4 else rng.randrange(0, 0x20000) for _ in range(rng.randint(1, 4))], rng.getrandbits(30))
+            if i % 64 == 0:
+                k = rng.randint(2, 5)
+                check_program_reuse(res, cx, [rng.choice(MODES) for _ in range(k)], [rng.choice([0, 0x7FFF, 0x8000, 0x1FFFFE]) if rng.random() < 0.4 else rng.randrange(0, 0x200000) for _ in range(k)])
             if i == 0:
                 res.sample({"pointer": {"base": hex(base), "p": hex(p)}})
     return res
@@ -373,6 +440,10 @@ def replay(w: dict) -> Res:
         check_offset(res, cx, w["mode"], w["o"], w.get("style"))
     elif w["kind"] == "pointer":
         check_pointer(res, cx, w["base"], w["p"])
+    elif w["kind"] == "converters_alive":
+        check_converters_alive(res, w["bases"], w["ps"], w["order_seed"])
+    elif w["kind"] == "program_reuse":
+        check_program_reuse(res, cx, w["modes"], w["offsets"])
     elif w["kind"] == "pointer_batch":
         check_pointer_batch(res, cx, w["base"], w["ps"])
     elif w["kind"] == "table":
